@@ -67,6 +67,8 @@ def DG.dtype (g : DG) (v : Nat) : String :=
 def DG.op? (g : DG) (oid : Nat) : Option DOp := g.ops.find? (·.oid == oid)
 def DG.source (g : DG) (v : Nat) : Option DOp := g.ops.find? (fun o => o.outs.contains v)
 def DOp.attr (o : DOp) (k : String) : Option (List Int) := (o.attrs.find? (·.1 == k)).map (·.2)
+def attr1 (o : DOp) (k : String) (dflt : Int) : Int :=
+  match o.attr k with | some [x] => x | _ => dflt
 
 /-! ## parsing -/
 
@@ -374,7 +376,9 @@ def visitorsMain : List (DG → DOp → Option Fus) :=
       ((s.find "softmax").bind g.op?).map fun so => so.attrs ++ [("flush", [1])],
     fun g o => patFusion g o addSoftmaxPat "AddSoftmax" ["qk", "mask"] fun s =>
       match s.find "softmax" with
-      | some sm => if lastAxis g sm softmaxAxis then some [] else none
+      | some sm =>
+        -- the fused operator inherits `flush_nans_to_zero` from the Softmax it replaces
+        if lastAxis g sm softmaxAxis then some [("flush", [((g.op? sm).map fun so => attr1 so "flush" 0).getD 0])] else none
       | none => none ]
 
 /-! ## apply_fusion -/
@@ -482,9 +486,6 @@ def constCode (c : ConstInfo) : String :=
       "#i[" ++ sh ++ "]{" ++ ",".intercalate (c.ints.map toString) ++ "}"
     else s!"#i[{sh}]"
   else s!"#{c.dtype}[{sh}]"
-
-def attr1 (o : DOp) (k : String) (dflt : Int) : Int :=
-  match o.attr k with | some [x] => x | _ => dflt
 
 /-- attribute text, same format as the harness' `attr_suffix` -/
 def attrText (o : DOp) : String :=
